@@ -128,5 +128,15 @@ PROPS['C14'] = {
             'Known finding: single-node axes report cell size 0. Not under contract: __getitem__/insert/append/squeeze/byaxis N-d bookkeeping',
     'technique': 'contract-based deductive verification: symbolic execution of the real partition code on closure arrays of symbolic length, induction lemma for telescoping, z3',
 }
+PROPS['C15'] = {
+    'level': 'proof',
+    'text': 'Deductive (partial): the real interpolator classes (_find_indices, the weight/edge helpers, _NearestInterpolator._evaluate, _PerAxisInterpolator._evaluate) are executed '
+            'on arbitrarily many evaluation points (pointwise model over the point index) of a generic strictly increasing grid of symbolic size, ndim 1 and 2: inside the hull the point '
+            'is bracketed with 0 <= ndist <= 1; nearest returns the closer node (right on ties); linear / mixed returns the multilinear blend of the surrounding nodes; node values are '
+            'reproduced; affine functions are reproduced exactly.',
+    'note': 'trusted: pyvc interpreter, pointwise + lookup-table kernel contracts, searchsorted contract (K6), z3 + polynomial normal form. NOT under contract: creating elements from callables '
+            '(sampling_function, vectorize, _make_dual_use_func: reflection / exception-driven control flow), meshgrid input, ndim >= 3, outside the hull',
+    'technique': 'contract-based deductive verification: symbolic execution of the real interpolation code at a generic evaluation point, z3 / sympy normal form',
+}
 for _k in PROPS:
     NOT_APPLICABLE.pop(_k, None)
